@@ -7891,3 +7891,74 @@ def sc2(m, run, rule='SC2.control-points-are-stored-as-given'):
                 raise AnalysisError('%s: interpreter met an unsupported construct: %s' % (key, ex))
             ci = m.classes[(mod, cname)]
             run.ob(rule, key, why is None, 'set_ctrlpts and the setter store every coordinate as given, the getters return it' if why is None else why, 'geomdl/%s.py:%d class %s' % (mod, ci.node.lineno, cname))
+
+
+# ====================================================================================== C20: the convex hull on every small point set in general position
+def ch2(m, run, rule='CH2.convex-hull-on-all-small-point-sets'):
+    """CH2: linalg.convex_hull interpreted with exact integer arithmetic on every set of 3 .. 5 points of the 3 x 3 integer grid that is not
+    contained in a line (collinear triples and points sharing an x or a y coordinate included), each in three input orders (as enumerated,
+    reversed, rotated), and on every 4-point set of the 4 x 4 grid without collinear triples: the result contains every extreme point of
+    the set, only points of the set that lie on the boundary of its hull, no point twice, in counter-clockwise order, and the input list
+    is left as it was"""
+    import itertools
+    fi = m.func('linalg.convex_hull')
+
+    def orient(p, q, r):
+        return (q[0] - p[0]) * (r[1] - p[1]) - (r[0] - p[0]) * (q[1] - p[1])
+
+    def chain(ps, strict):
+        out = []
+        for p in ps:
+            while len(out) > 1 and (orient(out[-2], out[-1], p) <= 0 if strict else orient(out[-2], out[-1], p) < 0):
+                out.pop()
+            out.append(p)
+        return out
+
+    def reference(pts_, strict):
+        ps = sorted(pts_)
+        lo, up = chain(ps, strict), chain(list(reversed(ps)), strict)
+        return lo[:-1] + up[:-1]
+    cases = []
+    g3 = [(x, y) for x in range(3) for y in range(3)]
+    for n in (3, 4, 5):
+        for sub in itertools.combinations(g3, n):
+            if all(orient(sub[0], sub[1], c) == 0 for c in sub[2:]):
+                continue
+            cases += [(sub, list(sub)), (sub, list(reversed(sub))), (sub, list(sub[n // 2:] + sub[:n // 2]))]
+    g4 = [(x, y) for x in range(4) for y in range(4)]
+    for sub in itertools.combinations(g4, 4):
+        if not any(orient(a, b, c) == 0 for a, b, c in itertools.combinations(sub, 3)):
+            cases.append((sub, list(reversed(sub))))
+    bad = []
+    for sub, order in cases:
+        if bad:
+            break
+        extreme, boundary = set(reference(sub, True)), set(reference(sub, False))
+        inp = [list(p) for p in order]
+        keep = [list(p) for p in inp]
+        sk = SK(m, {})
+        sk.exact = True
+        why = None
+        try:
+            out = sk.call(fi, [inp], {})
+            got = [tuple(int(c) for c in p) for p in out] if isinstance(out, list) and all(isinstance(p, (list, tuple)) and len(p) == 2 and not any(isinstance(c, Tok) for c in p) for p in out) else None
+            if got is None:
+                why = 'returns %s' % repr(out)[:120]
+            elif len(set(got)) != len(got):
+                why = 'returns %s: a point is listed twice' % (got,)
+            elif not extreme <= set(got):
+                why = 'returns %s: the extreme point %s of the set is missing' % (got, sorted(extreme - set(got))[0])
+            elif not set(got) <= boundary:
+                why = 'returns %s: %s does not lie on the boundary of the hull' % (got, sorted(set(got) - boundary)[0])
+            elif any(orient(got[k - 1], got[k], got[(k + 1) % len(got)]) < 0 for k in range(len(got))) or sum(a[0] * b[1] - b[0] * a[1] for a, b in zip(got, got[1:] + got[:1])) <= 0:
+                why = 'returns %s, which is not in counter-clockwise order' % (got,)
+            elif inp != keep:
+                why = 'the input list is modified'
+        except Violation as v:
+            why = '%s %s' % (v.msg, v.where())
+        except Unsupported as ex:
+            raise AnalysisError('%s: interpreter met an unsupported construct: %s' % (fi.key, ex))
+        if why:
+            bad.append(('points %s' % (order,), why))
+    run.ob(rule, '%s :: %d (point set, input order) cases' % (fi.key, len(cases)), not bad, 'every extreme point, boundary points only, once each, counter-clockwise' if not bad else '%s: %s' % bad[0],
+           'geomdl/linalg.py:%d in %s' % (fi.node.lineno, fi.key))
